@@ -149,9 +149,11 @@ def tokens(b):
             called.add(s_)
             nxt = len(conns)
             if nxt < len(dialler) and dialler[nxt] == s_:
+                closing = any(c[0] == key[s_ - 1] and c[1] == "heldclosing" for c in conns)
                 conns.append([key[s_ - 1], "gate_up" if s_ not in cancelled else "dead", {s_}])
                 conn_of[s_] = nxt
-                toks.append("Call:dial" + (":precancelled" if s_ in cancelled else ""))
+                toks.append("Call:dial" + (":precancelled" if s_ in cancelled else "")
+                            + (":while-same-key-connection-is-shutting-down" if closing else ""))
             else:
                 cand = [i for i, c in enumerate(conns) if c[0] == key[s_ - 1] and c[1] != "dead"]
                 if cand:
@@ -173,6 +175,10 @@ def tokens(b):
             else:
                 toks.append("Cancel:other")
             cancelled.add(s_)
+            if s_ in conn_of and b["idle"] == "zero":
+                c = conns[conn_of[s_]]
+                if c[1] == "open" and len(c) > 3 and c[3] and not [m for m in c[2] if m not in cancelled]:
+                    c[1] = "heldclosing"  # closed flag set, close handshake held by the upstream: still in the pool
         elif a in ("Upgrade", "Ack", "Reject", "InitFail", "Close"):
             i = c_ - 1
             n = len([m for m in conns[i][2] if m not in cancelled]) if 0 <= i < len(conns) else 0
@@ -180,7 +186,30 @@ def tokens(b):
                 conns[i][1] = {"Upgrade": "gate_ack", "Ack": "open"}.get(a, "dead")
             toks.append("%s%s:%d" % (a, st.get("k", ""), min(n, 2)))
         elif a == "Send":
-            toks.append("Send-%s%s:%s" % (st["k"], st.get("v", "-"), "late" if s_ in cancelled else "live"))
+            sib = 0
+            if s_ in conn_of:
+                sib = len([m for m in conns[conn_of[s_]][2] if m not in cancelled and m != s_])
+            toks.append("Send-%s%s:%s%s%s" % (st["k"], st.get("v", "-"), "late" if s_ in cancelled else "live",
+                                              ":selfcancel:sib%d" % min(sib, 1) if st.get("sc") else "",
+                                              ":spawn:sib%d" % min(sib, 1) if st.get("sp") else ""))
+            if st.get("sc"):
+                cancelled.add(s_)
+            if st.get("sp"):
+                t_ = st["sp"]
+                called.add(t_)
+                if s_ in conn_of:
+                    conns[conn_of[s_]][2].add(t_)
+                    conn_of[t_] = conn_of[s_]
+        elif a in ("HoldClose", "Release"):
+            i = c_ - 1
+            n = len([m for m in conns[i][2] if m not in cancelled]) if 0 <= i < len(conns) else 0
+            if 0 <= i < len(conns):
+                while len(conns[i]) < 4:
+                    conns[i].append(False)
+                conns[i][3] = a == "HoldClose"
+                if a == "Release" and conns[i][1] == "heldclosing":
+                    conns[i][1] = "dead"
+            toks.append("%s:%d" % (a, min(n, 2)))
         elif a == "Mute":
             i = c_ - 1
             n = len([m for m in conns[i][2] if m not in cancelled]) if 0 <= i < len(conns) else 0
@@ -264,12 +293,21 @@ def to_schedule(idx, b, rng, mode="ws"):
         variant = rng.choice(["endpoint", "hdr"])
     # every fourth schedule goes through the data-source wrapper (graphql_subscription_client.go); it has no idle timeout
     level = "ds" if b["idle"] == "zero" and rng.random() < 0.25 else "client"
+    if b.get("reent"):
+        level = "client"  # the data-source wrapper does not hand the unsubscribe function to the updater
+    steps = b["steps"]
     if mode == "sse":
         variant = rng.choice(["endpoint", "hdr"])
+        # SSE framing of every event: the same event written in one of the forms the grammar allows
+        framing = {"complete": ["plain", "bare", "bare", "emptydata", "comment", "crlf"],
+                   "next": ["plain", "noevent", "comment", "multiline", "crlf"],
+                   "error": ["plain", "comment", "multiline", "crlf"]}
+        steps = [dict(st, f=rng.choice(framing[st["k"]])) if st["a"] == "Send" else st for st in steps]
     return {"id": "%s%d-%06d" % (mode, n, idx), "mode": mode, "level": level, "proto": proto, "variant": variant,
             "idle_ms": 0 if b["idle"] == "zero" else IDLE_MS, "key": b["key"], "bad": b.get("bad") or [False] * n, "ping": bool(b.get("ping")),
+            "hold": bool(b.get("hold")), "reent": bool(b.get("reent")),
             "dialler": b["dialler"], "reach": b.get("reach"),
-            "steps": b["steps"], "expect": b.get("exp")}
+            "steps": steps, "expect": b.get("exp")}
 
 
 def run_harness(ctx, binary, scheds, tag, shards):
@@ -511,18 +549,29 @@ def _run(ctx):
             raise lib.Inconclusive("generator run failed: %s" % g.error)
     uniq = {}
     for b in g2.printed + g3.printed:
-        uniq.setdefault(lib.sha([b["key"], b["idle"], b.get("bad"), b.get("ping"), b["steps"]]), b)
+        uniq.setdefault(lib.sha([b["key"], b["idle"], b.get("bad"), b.get("ping"), b.get("hold"), b.get("reent"), b["steps"]]), b)
     beh = sorted(uniq.values(), key=lambda b: lib.sha(b))
     rng.shuffle(beh)
     n_int = sum(1 for b in beh if interesting(b))
     # three strata so that the extra configurations do not crowd out the plain ones
     cap = 500 if quick else 12000
-    strata = [([b for b in beh if not any(b.get("bad") or []) and not b.get("ping")], cap * 68 // 100),
-              ([b for b in beh if any(b.get("bad") or [])], cap * 17 // 100),
-              ([b for b in beh if b.get("ping") and any(st["a"] == "Mute" for st in b["steps"])], cap * 11 // 100),
-              ([b for b in beh if b.get("ping") and not any(st["a"] == "Mute" for st in b["steps"])], cap * 4 // 100)]
+    strata = [([b for b in beh if not any(b.get("bad") or []) and not b.get("ping") and not b.get("hold") and not b.get("reent")], cap * 52 // 100),
+              ([b for b in beh if any(b.get("bad") or [])], cap * 13 // 100),
+              ([b for b in beh if b.get("ping") and any(st["a"] == "Mute" for st in b["steps"])], cap * 9 // 100),
+              ([b for b in beh if b.get("ping") and not any(st["a"] == "Mute" for st in b["steps"])], cap * 2 // 100),
+              ([b for b in beh if b.get("hold") and any(st["a"] == "HoldClose" for st in b["steps"])], cap * 12 // 100),
+              ([b for b in beh if b.get("reent") and any(st.get("sc") or st.get("sp") for st in b["steps"])], cap * 12 // 100)]
     chosen, npat = [], 0
     for part, k in strata:
+        # the narrow window first: a Subscribe arriving while a connection of its key is between "closed" and "left the pool"
+        must = [b for b in part if b.get("hold") and any("shutting-down" in t for t in tokens(b))]
+        rng.shuffle(must)
+        must = must[:k // 2]
+        if must:
+            ids = {id(b) for b in must}
+            part = [b for b in part if id(b) not in ids]
+            k -= len(must)
+            chosen += must
         c, n = select(part, k, rng) if part else ([], 0)
         chosen += c
         npat += n
@@ -535,7 +584,12 @@ def _run(ctx):
                 sum(1 for x in scheds if any(st["a"] == "Mute" for st in x["steps"])),
                 sum(1 for x in scheds if len({st.get("v") for st in x["steps"] if st["a"] == "Send" and st["k"] == "next"}) >= 2),
                 sum(1 for x in scheds if any(st["a"] == "Close" and st["k"] for st in x["steps"])),
-                sum(1 for x in scheds if x["variant"].startswith("payload-") and len(set(x["key"])) > 1)))
+                sum(1 for x in scheds if x["variant"].startswith("payload-") and len(set(x["key"])) > 1))
+            + "; %d with a held close handshake, %d with a re-entrant handler (%d self-cancel, %d subscribe-inside)" % (
+                sum(1 for x in scheds if any(st["a"] == "HoldClose" for st in x["steps"])),
+                sum(1 for x in scheds if any(st.get("sc") or st.get("sp") for st in x["steps"])),
+                sum(1 for x in scheds if any(st.get("sc") for st in x["steps"])),
+                sum(1 for x in scheds if any(st.get("sp") for st in x["steps"]))))
     gs = [jobs["gensse"].result()] + ([jobs["gensse3"].result()] if not quick else [])
     usse = {}
     for g in gs:
@@ -585,7 +639,7 @@ def _run(ctx):
 
     if unreal:
         ctx.notes.append("%d schedules contained a step the real code could not take as scheduled (validated anyway)" % unreal)
-    distinct = {lib.sha([s["mode"], s["level"], s["proto"], s["variant"], s["idle_ms"], s["key"], s["bad"], s["ping"], s["steps"]]) for s in allsched
+    distinct = {lib.sha([s["mode"], s["level"], s["proto"], s["variant"], s["idle_ms"], s["key"], s["bad"], s["ping"], s["hold"], s["reent"], s["steps"]]) for s in allsched
                 if sum(1 for x in s["steps"] if x["a"] == "Call") >= 2 and any(x["a"] != "Call" for x in s["steps"])}
     sample_ids = [s["id"] for s in (scheds[:2] + sse[:1])]
     ctx.coverage.update({
